@@ -37,6 +37,7 @@ pub fn strata(tier: Tier) -> Vec<Stratum> {
     vec![
         // (first: small, and a wall cap must never cut it)
         Stratum { name: "repeated-operators", params: ps(&[("a", Ty::Int), ("b", Ty::Int), ("c", Ty::Int)]), ret: Ty::Int, prods: Default::default(), max_size: 0, custom: Some(repeated_operator_bodies) },
+        Stratum { name: "partial-bindings", params: ps(&[("a", Ty::Int), ("b", Ty::Int), ("p", Ty::Bool), ("o", t_opt_int())]), ret: Ty::Int, prods: Default::default(), max_size: 0, custom: Some(partial_binding_bodies) },
         Stratum {
             name: "arith-compare-if-let",
             params: ps(&[("a", Ty::Int), ("b", Ty::Int)]),
@@ -149,7 +150,55 @@ pub fn strata(tier: Tier) -> Vec<Stratum> {
             max_size: 6 + b,
             custom: None,
         },
+        // Pair values take their own route through the code generator (builtin pairs, not Data)
+        Stratum {
+            name: "pair-consume",
+            params: ps(&[("q", t_pair_ii()), ("a", Ty::Int)]),
+            ret: Ty::Int,
+            prods: Prods { arith: true, when: true, fields: true, let_: true, if_: true, compare: true, expect: true, ..Default::default() },
+            max_size: 5 + b,
+            custom: None,
+        },
+        Stratum {
+            name: "pair-build",
+            params: ps(&[("a", Ty::Int), ("p", Ty::Bool), ("q", t_pair_ii())]),
+            ret: t_pair_ii(),
+            prods: Prods { arith: true, ctors: true, if_: true, fields: true, when: true, eq_types: vec![t_pair_ii()], ..Default::default() },
+            max_size: 5 + b,
+            custom: None,
+        },
     ]
+}
+
+/// A binding whose initialiser can abort (division, modulo, a failing `expect`), used by the
+/// continuation on some paths only or on every path: `let v = a / b  if p { v } else { 0 }`.
+/// The enumerated strata reach the shape only for `expect` casts (size).
+pub fn partial_binding_bodies() -> Vec<Expr> {
+    let v = |x: &str| Expr::Var(x.into());
+    let int = |i: i64| Expr::Int(num_bigint::BigInt::from(i));
+    let bin = |op: Op, a: Expr, b: Expr| Expr::Bin(op, Rc::new(a), Rc::new(b));
+    let rc = |e: Expr| Rc::new(e);
+    let partials = vec![bin(Op::Div, v("a"), v("b")), bin(Op::Mod, v("a"), v("b")), bin(Op::Div, int(1000), v("b")), bin(Op::Add, bin(Op::Div, v("a"), v("b")), int(1))];
+    let uses: Vec<Box<dyn Fn(Expr) -> Expr>> = vec![
+        Box::new(|x| Expr::If(Rc::new(Expr::Var("p".into())), Rc::new(x), Rc::new(Expr::Int(0.into())))),
+        Box::new(|x| Expr::If(Rc::new(Expr::Var("p".into())), Rc::new(Expr::Int(0.into())), Rc::new(x))),
+        Box::new(|x| Expr::If(Rc::new(Expr::Var("p".into())), Rc::new(x.clone()), Rc::new(Expr::Bin(Op::Add, Rc::new(x), Rc::new(Expr::Int(1.into())))))),
+        Box::new(|x| Expr::When(Rc::new(Expr::Var("a".into())), vec![(Pat::Int(0), Expr::Int(7.into())), (Pat::Discard, x)])),
+        Box::new(|x| Expr::When(Rc::new(Expr::Var("a".into())), vec![(Pat::Int(0), x), (Pat::Discard, Expr::Int(7.into()))])),
+        Box::new(|x| Expr::If(Rc::new(Expr::Bin(Op::And, Rc::new(Expr::Var("p".into())), Rc::new(Expr::Bin(Op::Gt, Rc::new(x), Rc::new(Expr::Int(0.into())))))), Rc::new(Expr::Int(1.into())), Rc::new(Expr::Int(2.into())))),
+        Box::new(|x| Expr::Bin(Op::Add, Rc::new(x), Rc::new(Expr::Int(1.into())))),
+    ];
+    let mut out = vec![];
+    for pexp in &partials {
+        for u in &uses {
+            out.push(Expr::Let(Pat::Var("v".into()), rc(pexp.clone()), rc(u(v("v")))));
+        }
+    }
+    // the same with a failing pattern `expect`: expect Some(x) = o
+    for u in &uses {
+        out.push(Expr::Expect(Pat::Ctor(t_opt_int(), 0, vec![Pat::Var("x".into())], false), rc(v("o")), rc(u(v("x")))));
+    }
+    out
 }
 
 /// Bodies in which one operator is applied 1-4 times to the *same constant* on the same side
